@@ -139,25 +139,46 @@ func checkC17Files(c *lib.Ctx) {
 			r.Fail(lib.Failure{Kind: "oracle", Key: "attrs/" + api + "/" + k, What: "attributes reported for a served file differ from what the file system reports", Input: map[string]string{"api": api, "kind": k}, Actual: bad})
 		}
 	}
+	// every client call has the hang deadline; an API that did not return once is not called again
+	hungAPI := map[string]bool{}
+	guarded := func(api, k string, f func()) bool {
+		if hungAPI[api] || c.Stop("c17/attrs/"+api) {
+			return false
+		}
+		if lib.Within("c17/attrs/"+api, 20*time.Second, f) {
+			return true
+		}
+		hungAPI[api] = true
+		r.Fail(lib.Failure{Kind: "oracle", Key: "attrs/hang/" + api, What: api + " of a served file did not return within 20 s", Input: map[string]string{"api": api, "kind": k}})
+		return false
+	}
 	for _, k := range made {
 		p := filepath.Join(d, k)
 		want, _ := os.Lstat(p)
-		if got, err := cl.Lstat(p); err != nil {
-			r.Fail(lib.Failure{Kind: "oracle", Key: "attrs/Lstat/" + k, What: "Lstat failed: " + err.Error(), Input: k})
-		} else {
-			cmp("Lstat", k, got, want)
+		var got os.FileInfo
+		var err error
+		if guarded("Lstat", k, func() { got, err = cl.Lstat(p) }) {
+			if err != nil {
+				r.Fail(lib.Failure{Kind: "oracle", Key: "attrs/Lstat/" + k, What: "Lstat failed: " + err.Error(), Input: k})
+			} else {
+				cmp("Lstat", k, got, want)
+			}
 		}
 		if k != "dangling" {
 			wantS, _ := os.Stat(p)
-			if got, err := cl.Stat(p); err != nil {
-				r.Fail(lib.Failure{Kind: "oracle", Key: "attrs/Stat/" + k, What: "Stat failed: " + err.Error(), Input: k})
-			} else {
-				cmp("Stat", k, got, wantS)
+			if guarded("Stat", k, func() { got, err = cl.Stat(p) }) {
+				if err != nil {
+					r.Fail(lib.Failure{Kind: "oracle", Key: "attrs/Stat/" + k, What: "Stat failed: " + err.Error(), Input: k})
+				} else {
+					cmp("Stat", k, got, wantS)
+				}
 			}
 		}
 	}
-	fis, err := cl.ReadDir(d)
-	if err != nil || len(fis) != len(made) {
+	var fis []os.FileInfo
+	if !guarded("ReadDir", "directory", func() { fis, err = cl.ReadDir(d) }) {
+		fis, err = nil, nil
+	} else if err != nil || len(fis) != len(made) {
 		r.Fail(lib.Failure{Kind: "oracle", Key: "attrs/ReadDir", What: "ReadDir failed or lost entries", Actual: fmt.Sprint(len(fis), err)})
 	}
 	for _, fi := range fis {
@@ -169,13 +190,13 @@ func checkC17Files(c *lib.Ctx) {
 	// long names: raw READDIR against a fresh server
 	srv, err := peers.StartOS()
 	if err == nil {
-		srv.Handshake()
-		p, _ := srv.Call(wire.Req(wire.Opendir, 1, wire.B{}.Str(d)))
+		hHandshake(srv, nil)
+		p, _ := hCall(srv, nil, wire.Req(wire.Opendir, 1, wire.B{}.Str(d)))
 		if p.Typ == wire.Handle {
 			dd := wire.D{B: p.Body[4:]}
 			h := dd.Str()
 			for id := uint32(2); ; id++ {
-				p, err := srv.Call(wire.Req(wire.Readdir, id, wire.B{}.Str(h)))
+				p, err := hCall(srv, nil, wire.Req(wire.Readdir, id, wire.B{}.Str(h)))
 				if err != nil || p.Typ != wire.Name {
 					break
 				}
@@ -211,7 +232,7 @@ func checkC17Files(c *lib.Ctx) {
 			}
 		}
 		srv.CloseInput()
-		srv.Wait(5 * time.Second)
+		hCleanupSrv(srv, "c17/server-exit", 5*time.Second)
 	}
 
 	// SETSTAT / FSETSTAT per flag subset
@@ -227,22 +248,22 @@ func checkC17Files(c *lib.Ctx) {
 			if err != nil {
 				continue
 			}
-			srv.Handshake()
+			hHandshake(srv, nil)
 			attrs := wire.St{Flags: flags, Size: 3, UID: 12, GID: 34, Perm: 0o100600, Atime: 1_300_000_000, Mtime: 1_300_000_001}
 			var rep wire.Pkt
 			if which == "setstat" {
-				rep, err = srv.Call(wire.Req(wire.Setstat, 5, wire.B{}.Str(f).Raw(attrs.Block())))
+				rep, err = hCall(srv, nil, wire.Req(wire.Setstat, 5, wire.B{}.Str(f).Raw(attrs.Block())))
 			} else {
-				op, _ := srv.Call(wire.Req(wire.Open, 4, wire.B{}.Str(f).U32(wire.FRead|wire.FWrite).U32(0)))
+				op, _ := hCall(srv, nil, wire.Req(wire.Open, 4, wire.B{}.Str(f).U32(wire.FRead|wire.FWrite).U32(0)))
 				if op.Typ != wire.Handle {
 					srv.CloseInput()
 					continue
 				}
 				hd := wire.D{B: op.Body[4:]}
-				rep, err = srv.Call(wire.Req(wire.Fsetstat, 5, wire.B{}.Str(hd.Str()).Raw(attrs.Block())))
+				rep, err = hCall(srv, nil, wire.Req(wire.Fsetstat, 5, wire.B{}.Str(hd.Str()).Raw(attrs.Block())))
 			}
 			srv.CloseInput()
-			srv.Wait(5 * time.Second)
+			hCleanupSrv(srv, "c17/server-exit", 5*time.Second)
 			after, _ := os.Lstat(f)
 			code := uint32(99)
 			if err == nil && rep.Typ == wire.Status {
